@@ -159,8 +159,8 @@ def nontrivial(ans):
     dropped = False
     for a in ans:
         if " | " in a:
-            head, tail = a.split(" | ")
-            sizes.add(tail.split()[0])
+            head, tail = a.split(" | ", 1)
+            sizes.add((tail.split() or ["?"])[0])
             h = head.split()
             if len(h) == 2 and h[1].isdigit() and int(h[1]) > 0 and h[0].lstrip("-").isdigit():
                 dropped = True
@@ -294,9 +294,12 @@ def annotate(seqs, answers):
             a = ans[i] if i < len(ans) else ""
             ret, size = "0", "0"
             if " | " in a:
-                head, tail = a.split(" | ")
+                # a crash (assertion abort) can leave a truncated last answer line
+                head, tail = a.split(" | ", 1)
                 ret = (head.split() or ["0"])[0]
-                size = tail.split()[0]
+                size = (tail.split() or ["0"])[0]
+                if not size.isdigit():
+                    size = "0"
             out.append("%s @ %s %s\n" % (l, ret if ret.lstrip("-").isdigit() else "0", size))
     return "".join(out)
 
